@@ -1377,7 +1377,8 @@ function translate_select_expression(select_expression) {
 
 function separate_string_literals(rbql_expression) {
     // The regex consists of 3 almost identicall parts, the only difference is quote type
-    var rgx = /('(\\(\\\\)*'|[^'])*')|("(\\(\\\\)*"|[^"])*")|(`(\\(\\\\)*`|[^`])*`)/g;
+    // Inside a literal a backslash always escapes the next character, so an escaped backslash right before the closing quote (e.g. 'C:\\') does not escape that quote
+    var rgx = /('(\\[\s\S]|[^'\\])*')|("(\\[\s\S]|[^"\\])*")|(`(\\[\s\S]|[^`\\])*`)/g;
     var match_obj = null;
     var format_parts = [];
     var string_literals = [];
